@@ -266,6 +266,14 @@ def prebuild(env):
     from pybrops.breed.prot.sel.cfg.SubsetSelectionConfiguration import SubsetSelectionConfiguration
     pre["xcfg_exact"] = SubsetSelectionConfiguration(ncross=3, nparent=2, nmating=1, nprogeny=1, pgmat=env.pg, xconfig_decn=np.array([1, 4, 6, 2, 7, 0]))
     pre["options"] = np.arange(10, 18)
+    # a phenotyping protocol that was saved and read back (no generator given: it is bound to the library's global generator)
+    import tempfile, os
+    fd, fn = tempfile.mkstemp(suffix=".h5"); os.close(fd)
+    try:
+        pre["pheno"].to_hdf5(fn, "prot")
+        pre["pheno_h5"] = G_E_Phenotyping.from_hdf5(fn, "prot", gpmod=env.gm)
+    finally:
+        os.remove(fn)
     env.pre = pre
 
 
@@ -277,7 +285,7 @@ def _preobj(key, how):
         if key == "options":
             from pybrops.core.random.sampling import tiled_choice
             return [np.asarray(tiled_choice(o, (4, 2), False, None, rng)).copy(), o.copy()]
-        if key == "pheno":
+        if key in ("pheno", "pheno_h5"):
             return o.phenotype(env.pg)
         if key.startswith("mate"):
             o.progeny_counter = 0; o.family_counter = 0
@@ -365,6 +373,7 @@ OPS = {
     "pre_climber_copied": ("lib", _preobj("climber", ":copy"), False),
     "pre_selebv_deepcopied": ("select", _preobj("selebv", ":deepcopy"), False),
     "pre_selebv_copied": ("select", _preobj("selebv", ":copy"), False),
+    "pre_pheno_from_hdf5": ("lib", _preobj("pheno_h5", ""), False),
     "pre_xcfg_resample": ("lib", _preobj("xcfg_exact", ""), False),
     "pre_tiled_exact_fit": ("lib", _preobj("options", ""), True),
     "select_embv": ("select", lambda env, rng: _select("ExpectedMaximumBreedingValueSubsetSelection", "ExpectedMaximumBreedingValueSelection",
